@@ -212,16 +212,17 @@ Fixpoint skip_macro (ls : lines) (acc : list (N * str)) : list (N * str) * lines
       end
   end.
 
-(** skip(EndIf / EndIfAll): the lines the loop resumes with *)
-Fixpoint skip_cond (all : bool) (depth : nat) (ls : lines) : lines :=
+(** skip(EndIf / EndIfAll): the lines the loop resumes with, and whether it stopped AT an .elif line
+    (only then is that .elif evaluated) *)
+Fixpoint skip_cond (all : bool) (depth : nat) (ls : lines) : lines * bool :=
   match ls with
-  | [] => []
+  | [] => ([], false)
   | (n, l) :: r =>
       match dir_of l with
       | Some DIf | Some DIfDef | Some DIfNDef => skip_cond all (S depth) r
-      | Some DEndif => match depth with O => r | S d => skip_cond all d r end
-      | Some DElse => match depth with O => if all then skip_cond all depth r else r | S _ => skip_cond all depth r end
-      | Some DElIf => match depth with O => if all then skip_cond all depth r else ls | S _ => skip_cond all depth r end
+      | Some DEndif => match depth with O => (r, false) | S d => skip_cond all d r end
+      | Some DElse => match depth with O => if all then skip_cond all depth r else (r, false) | S _ => skip_cond all depth r end
+      | Some DElIf => match depth with O => if all then skip_cond all depth r else (ls, true) | S _ => skip_cond all depth r end
       | _ => skip_cond all depth r
       end
   end.
@@ -229,8 +230,8 @@ Fixpoint skip_cond (all : bool) (depth : nat) (ls : lines) : lines :=
 Definition label_item (st : pstate) (l : option str) (line : N) : pstate :=
   match l with Some name => push_item st (line, 1) (ILabel name) | None => st end.
 
-(** parse_iter.  [skipped] tells whether the current line was reached by skipping an untaken
-    branch (then an .elif is evaluated) or by falling into it after an assembled branch. *)
+(** parse_iter.  [skipped] tells whether the current line is the .elif at which the skipping of an
+    untaken branch stopped (then it is evaluated); any other .elif follows an assembled branch. *)
 Fixpoint parse_iter (g : nat) (ls : lines) (skipped : bool) (st : pstate) : res pstate :=
   match g with
   | O => OutOfFuel
@@ -255,8 +256,8 @@ Fixpoint parse_iter (g : nat) (ls : lines) (skipped : bool) (st : pstate) : res 
               match ni with
               | NewLine => parse_iter g' r false st2
               | EndFile => Ok st2
-              | EndIf => parse_iter g' (skip_cond false 0 r) true st2
-              | EndIfAll => parse_iter g' (skip_cond true 0 r) false st2
+              | EndIf => let '(r', at_elif) := skip_cond false 0 r in parse_iter g' r' at_elif st2
+              | EndIfAll => parse_iter g' (fst (skip_cond true 0 r)) false st2
               | EndMacro =>
                   let '(body, r') := skip_macro r [] in
                   parse_iter g' r' false
